@@ -70,6 +70,17 @@ pub fn write_tree(files: &Tree) {
     }
 }
 
+/// Writes files the way `cp -p`, `rsync -t` or an archive restore does: with a modification
+/// time from the past (seconds since the epoch) instead of "now".
+pub fn write_tree_with_mtime(files: &Tree, secs: u64) {
+    write_tree(files);
+    for p in files.keys() {
+        if let Ok(f) = std::fs::File::options().write(true).open(p) {
+            let _ = f.set_modified(std::time::UNIX_EPOCH + std::time::Duration::from_secs(secs));
+        }
+    }
+}
+
 thread_local! {
     static TREE_LINKS: std::cell::RefCell<Vec<(String, String)>> = const { std::cell::RefCell::new(Vec::new()) };
 }
